@@ -129,11 +129,12 @@ def bind_param(mod, fname, pname, ctx, kw):
             return list(seq) if r.random() < 0.6 else seq          # the docstring's own form is a list of characters
         if pname == 'angles':
             n = kw.get('_seq_len', 3)
-            return [r.uniform(-3, 3) for _ in range(n)] if r.random() < 0.5 else np.array([r.uniform(-3, 3) for _ in range(n)])
+            vals = [r.choice([0.0, r.uniform(-3, 3), r.uniform(-3, 3)]) for _ in range(n)]
+            return vals if r.random() < 0.5 else np.array(vals)
         if pname == 'ax':
             return r.choice(['x', 'y', 'z', 0, 1, 2])
         if pname == 'ang':
-            return r.uniform(-3, 3)
+            return r.choice([0.0, 0, r.uniform(-3, 3), r.uniform(-3, 3)])      # the zero angle takes the identity shortcut
         raise Unbound(pname)
     if mod == 'core':
         if pname == 'data':
